@@ -21,6 +21,7 @@ func init() {
 			"W3 temp directories go with their phase: each clean*Temp is called only in the states that make it safe, sets its done-flag together with the removal and writes the partial report. " +
 			"W4 no path that wrote the final VDR report returns done == false. " +
 			"W5 every destructive callee of the per-fork sweep is preceded by the symlinked-ancestor check; W6 a map stored into Fork.filePostNodes in a loop over forks is created in that loop; W7 the symlink check reaches every ancestor (recursion on the parent, or a loop whose stat depends on the loop's node). " +
+			"W8 util.Walk opens its root with O_NOFOLLOW. " +
 			"NOT decided: equality of Count/Size with the bytes removed, completeness (no volatile file survives), merge arithmetic.",
 		Assumptions: commonAssumptions,
 	}
@@ -329,6 +330,7 @@ func runC14(c *an.Ctx) {
 	ruleW5(c)
 	ruleW6(c)
 	ruleW7(c)
+	ruleW8(c)
 	// ---------------- W3 ----------------
 	ruleW3(c)
 }
